@@ -36,6 +36,9 @@ type Obligation struct {
 	GetVals []Term
 	Res     *SolveResult
 	Inputs  *ReplayInfo
+	tpos    token.Pos
+	snap    *snapshot // heap at the obligation (replay: ghost state, fakes)
+	events  *evNode   // calls to modelled interfaces / callback roles on this path, newest first
 }
 
 type loopInfo struct {
@@ -125,7 +128,10 @@ func (x *Exec) oblige(st *State, kind, detail string, goal Term, props []string,
 	if pos.IsValid() {
 		p := x.prog.prog.Fset.Position(pos)
 		o.Pos = fmt.Sprintf("%s:%d", shortFile(p.Filename), p.Line)
+		o.tpos = pos
 	}
+	o.snap = st.snap()
+	o.events = st.events
 	o.Inputs = x.replay
 	x.obls = append(x.obls, o)
 }
